@@ -112,6 +112,7 @@ class Summary:
     trys: dict = field(default_factory=dict)
     final_env: dict = field(default_factory=dict)
     unsupported: list = field(default_factory=list)
+    defs: dict = field(default_factory=dict)  # nested def name -> defining Env
 
     def rets(self) -> list:
         return [e for e in self.exits if e.kind == "ret"]
@@ -511,6 +512,7 @@ class _FuncEval:
             if fi is not None and not fi.is_overload:
                 st.env.vars[s.name] = ("closure", fi.qual, id(st.env))
                 self._closures[id(st.env)] = st.env
+                self.s.defs[s.name] = st.env  # live environment of the enclosing function at the def
             return st
         if isinstance(s, ast.ClassDef):
             ci = next((c for c in self.prog.classes.values() if c.node is s), None)
